@@ -22,7 +22,7 @@ inductive PC
   | wErr        -- default branch chosen, `setStatus(error)` pending
   | wTimeout    -- timeout branch chosen, `setStatus(cancel)` pending
   | retrySleep  -- retry branch chosen (`retryCount` already incremented), sleeping
-  | tail        -- after the loop: `if status == running { setStatus(success) }`
+  | tail        -- after the loop: `if status == running { setStatus(executed ? success : cancel) }`
   | td          -- explicit `teardownNode` (flush/sync error ⇒ lastError, status := error), `done <- node`
   | deferred    -- remaining: deferred teardown (no-op), `finish`, `wg.Done`
   | gone
@@ -65,6 +65,7 @@ structure NodeSt where
   pc      : PC := .idle
   zombies : Nat := 0      -- old workers of this node that only have their deferred part left
   cmd     : Bool := false -- `n.cmd != nil`
+  ran     : Bool := false -- `executed`: the current worker has called execNode at least once
   -- ghost
   execs    : Nat := 0     -- number of command starts
   ranLast  : Bool := false -- the current attempt has been started and not been given up for a retry
@@ -226,7 +227,7 @@ def step (c : Cfg) (s : State) : Act → Option State
       if (c.node i).hasPre ∧ preOk = false then
         some { (s.setNode i { s.nd i with status := .skipped, preSkip := true }) with loop := .scanning }
       else
-        some { (s.setNode i { s.nd i with status := .running, pc := .setup,
+        some { (s.setNode i { s.nd i with status := .running, pc := .setup, ran := false,
                                            launches := (s.nd i).launches + 1 }) with loop := .scanning }
     else none
   | .loopExit =>
@@ -243,8 +244,8 @@ def step (c : Cfg) (s : State) : Act → Option State
     else none
   | .execStart i =>
     if (s.nd i).pc = .starting then
-      if c.dry then some (s.setNode i { s.nd i with pc := .exec })
-      else some (s.setNode i { s.nd i with pc := .exec, cmd := true, execs := (s.nd i).execs + 1,
+      if c.dry then some (s.setNode i { s.nd i with pc := .exec, ran := true })
+      else some (s.setNode i { s.nd i with pc := .exec, ran := true, cmd := true, execs := (s.nd i).execs + 1,
                                             ranLast := true, sigs := [] })
     else none
   | .execEnd i ok =>
@@ -254,7 +255,8 @@ def step (c : Cfg) (s : State) : Act → Option State
         let nd := s.nd i
         if nd.status = .success ∨ nd.status = .cancel then some (afterExec c s i false)
         else if s.timedOut then some (s.setNode i { nd with pc := .wTimeout })
-        else if s.canceled then some (afterExec c { s with lastErr := true } i false)
+        else if s.canceled then
+          some (afterExec c { (s.setNode i { nd with status := .cancel }) with lastErr := true } i false)
         else if (c.node i).limit > nd.retry then
           some (s.setNode i { nd with retry := nd.retry + 1, ranLast := false, pc := .retrySleep })
         else some (s.setNode i { nd with pc := .wErr })
@@ -274,7 +276,9 @@ def step (c : Cfg) (s : State) : Act → Option State
   | .tail i =>
     if (s.nd i).pc = .tail then
       let nd := s.nd i
-      let nd := if nd.status = .running then { nd with status := .success } else nd
+      let nd := if nd.status = .running then
+                  { nd with status := if nd.ran then .success else .cancel }  -- never executed ⇒ canceled
+                else nd
       some (s.setNode i { nd with pc := .td })
     else none
   | .teardown i tdOk =>
@@ -288,15 +292,16 @@ def step (c : Cfg) (s : State) : Act → Option State
     if (s.nd i).zombies > 0 then some (s.setNode i { s.nd i with zombies := (s.nd i).zombies - 1 }) else none
   | .setCanceled => some { s with canceled := true }
   | .signalNode i sig ovr =>
-    if s.canceled ∧ (c.node i).rep = false then
+    -- `Signal` skips repeating steps except for the final SIGKILL
+    if s.canceled ∧ ((c.node i).rep = false ∨ sig = 9) then
       let nd := s.nd i
-      if nd.status = .running then
-        let eff := match ovr, (c.node i).sigOnStop with
-          | true, some g => g
-          | _, _ => sig
-        let nd := if nd.cmd then { nd with sigs := nd.sigs ++ [eff] } else nd
-        some (s.setNode i { nd with status := .cancel })
-      else some s
+      let eff := match ovr, (c.node i).sigOnStop with
+        | true, some g => g
+        | _, _ => sig
+      -- forwarded while the command is running (`n.cmdRunning && n.cmd != nil`), whatever the label
+      let nd := if nd.cmd ∧ nd.pc = .exec then { nd with sigs := nd.sigs ++ [eff] } else nd
+      if nd.status = .running then some (s.setNode i { nd with status := .cancel })
+      else some (s.setNode i nd)
     else none
   | .timeout => if c.hasTimeout then some { s with timedOut := true } else none
   | .waitAll =>
